@@ -165,7 +165,12 @@ def run (real : Bool) (lines : List String) : IO Unit := do
           | none => tally ← report false "model ran out of fuel" tally
         | none => tally ← report false "unparsable line" tally
       | _, _ => tally ← report false "unparsable line" tally
-    | [op, r, a, b] =>
+    | [op0, r, a, b0] =>
+      -- compound assignments `R = A; R op= B` are the same operations; a right-hand side named like the result is the
+      -- left-hand side itself (`R op= R`)
+      let inplace := op0 == "imul" || op0 == "iadd" || op0 == "isub"
+      let op := if inplace then (op0.drop 1).toString else op0
+      let b := if inplace && b0 == r then a else b0
       if op == "mul" || op == "add" || op == "sub" || op == "comm" || op == "acomm" then
         tally := tally.bump op
         match readPolyRaw (K := K) real rhs with
